@@ -32,7 +32,7 @@ var c09HdrSetsRespec = append(append([][]string{}, c09HdrSets...), []string{"X-K
 	[]string{"x-k", "^v", "X-K", "w$"},
 	// a call that is refused (the second expression does not compile): the set given before stays as it was
 	[]string{"Y-K", "b", "X-K", "("})
-var c09Paths = []string{"/s", "/o", "/o/t", "/o/u", "/d/v", "/e", "/e/v", "/zz", "/o/", "//s", "/d/v/w", "/o/t/u"}
+var c09Paths = []string{"/s", "/o", "/o/t", "/o/u", "/d/v", "/e", "/e/v", "/zz", "/o/", "//s", "/d/v/w", "/o/t/u", "/", "/r"}
 var c09Methods = []string{"GET", "POST", "PUT"}
 
 const c09MaxRegs = 3
@@ -421,6 +421,7 @@ func c09Expressions(r *core.Run) {
 		{{Kind: "reg", Route: "/o/?t", API: "Get"}},
 		{{Kind: "reg", Route: "/d/{x}", API: "Get"}},
 		{{Kind: "reg", Route: "/e/?{x}", API: "Routes(GET,POST)"}, {Kind: "reg", Route: "/{m: **}", API: "Any"}},
+		{{Kind: "reg", Route: "/?r", API: "Get"}},
 	}
 	var hdrs []map[string]string
 	hdrs = append(hdrs, map[string]string{}, map[string]string{"Y-K": "v"})
@@ -474,6 +475,9 @@ var c09Prefixes = [][]c09Op{
 	{{Kind: "reg", Route: "/s", API: "Get"}, {Kind: "reg", Route: "/d/{x}", API: "Get"}},
 	{{Kind: "reg", Route: "/o/?t", API: "Get"}, {Kind: "reg", Route: "/{m: **}", API: "Any"}},
 	{{Kind: "reg", Route: "/o/t", API: "Routes(GET;POST)"}, {Kind: "reg", Route: "/o/?{y}", API: "Get"}},
+	// a route whose only segment is optional (its short form is the root), alone and above a catch-all
+	{{Kind: "reg", Route: "/?r", API: "Get"}},
+	{{Kind: "reg", Route: "/?{x}", API: "Routes(GET,POST)"}, {Kind: "reg", Route: "/{m: **}", API: "Any"}},
 	// two optional routes, the second one level below the first and named like its optional segment
 	{{Kind: "reg", Route: "/o/?t", API: "Get"}, {Kind: "reg", Route: "/o/t/?u", API: "Get"}},
 }
